@@ -284,7 +284,7 @@ func runC18(r *Run, stratum string) *Violation {
 	if kind == "bad" {
 		badAt = g.Choose("badat", nUnits)
 	}
-	gen := &gen{c: g, opts: StreamOpts{NoUnknown: kind != "oddkeys"}}
+	gen := &gen{c: g, opts: StreamOpts{NoUnknown: kind != "oddkeys", VarKeyCmd: kind == "oddkeys"}}
 	for u := 0; u < nUnits; u++ {
 		us := unitSpec{slots: map[int]bool{}}
 		isBad := u == badAt
